@@ -23,8 +23,9 @@ static inline bool same(const uint8_t *a, const uint8_t *b, size_t n) { return n
 
 // ---------------------------------------------------------------- coverage counters local to the worker, flushed per case
 static uint64_t g_status[NCODEC_ALL][9];
-static uint64_t g_state[NCODEC_ALL][8];
-static bool g_trans_seen[NCODEC_ALL][8][8][9][8];
+// automaton coverage from PUBLIC observations only: (previous status, class of the byte, status) triples
+static bool g_trans_seen[NCODEC_ALL][10][8][9];
+static uint64_t g_src[NSRC];
 static int byte_class(const Alpha &a, uint8_t c)
 {
     if (c == a.START)
@@ -53,14 +54,14 @@ static void flush_cov()
                 vf::count(nm, g_status[k][s]);
                 g_status[k][s] = 0;
             }
-        for (int s = 0; s < 8; s++)
-            if (g_state[k][s])
-            {
-                snprintf(nm, sizeof nm, "state:%s:%d", CODEC_NAME[k], s);
-                vf::count(nm, g_state[k][s]);
-                g_state[k][s] = 0;
-            }
     }
+    for (int i = 0; i < NSRC; i++)
+        if (g_src[i])
+        {
+            snprintf(nm, sizeof nm, "receiver context source:%s", SRC_NAME[i]);
+            vf::count(nm, g_src[i]);
+            g_src[i] = 0;
+        }
 }
 
 // ---------------------------------------------------------------- one run of one receiver over one stream
@@ -109,47 +110,56 @@ static long start_marker_before(const Run &r, size_t i)
     return r.k == LEGACY ? -1 : -2; // the legacy receiver's leading delimiter is optional: initialisation point
 }
 
-static void run_stream(Codec k, int cap, const Bytes &s, unsigned placement, Run &r)
+// receive buffer: pattern-guarded region inside one heap block, or an exact block (ASan right behind / in front)
+struct RxBuf
 {
-    const Alpha &a = ALPHA[k];
-    r.k = k;
-    r.cap = cap;
-    r.s = &s;
-    r.st.clear();
-    r.st.reserve(s.size());
-    if (vf::verbose())
-        printf("  codec=%s cap=%d placement=%u stream=%s\n", CODEC_NAME[k], cap, placement % 3, vf::hex(s.data(), s.size(), 5000).c_str());
-    // receive buffer: pattern-guarded region inside one heap block, or an exact block (ASan right behind / in front)
     std::unique_ptr<vf::Region> reg;
     vf::Exact ex;
-    uint8_t *buf;
-    if (placement % 3 == 0)
+    uint8_t *p = nullptr;
+    void make(int cap, unsigned placement)
     {
-        reg.reset(new vf::Region((size_t)cap, 16, 16, (unsigned char)(0x5a + placement)));
-        buf = reg->win();
+        if (placement % 3 == 0)
+        {
+            reg.reset(new vf::Region((size_t)cap, 16, 16, (unsigned char)(0x5a + placement)));
+            p = reg->win();
+        }
+        else
+        {
+            ex.init(nullptr, (size_t)cap, placement % 3 == 2 ? 3 : 0, placement % 3 == 2);
+            p = ex.p;
+        }
     }
-    else
+    void release() // freed: a stale pointer kept by the receiver hits ASan
     {
-        ex.init(nullptr, (size_t)cap, placement % 3 == 2 ? 3 : 0, placement % 3 == 2);
-        buf = ex.p;
+        reg.reset();
+        ex.release();
+        p = nullptr;
     }
-    Rx rx(k);
-    rx.init(buf, cap);
+};
+// feed *r.s to the receiver (which was just given `b`, capacity r.cap); clauses (a) and (b) after every byte
+static void feed(Rx &rx, RxBuf &b, Run &r)
+{
+    const Codec k = r.k;
+    const int cap = r.cap;
+    const Bytes &s = *r.s;
+    const Alpha &a = ALPHA[k];
+    vf::Region *reg = b.reg.get();
+    r.st.clear();
+    r.st.reserve(s.size());
     Bytes u;
+    int prev = 9; // no status yet
     for (size_t i = 0; i < s.size(); i++)
     {
-        int sb = rx.state() & 7;
         int st = rx.put(s[i]);
-        int sa = rx.state() & 7;
         r.st.push_back((int8_t)st);
         g_status[k][st_slot(st)]++;
-        g_state[k][sa]++;
-        bool &seen = g_trans_seen[k][sb][byte_class(a, s[i])][st_slot(st)][sa];
+        bool &seen = g_trans_seen[k][prev][byte_class(a, s[i])][st_slot(st)];
         if (!seen)
         {
             seen = true;
-            vf::state(vf::mix(vf::mix(k, sb), vf::mix(vf::mix(byte_class(a, s[i]), st_slot(st)), sa)));
+            vf::state(vf::mix(vf::mix(k, prev), vf::mix(byte_class(a, s[i]), st_slot(st))));
         }
+        prev = st_slot(st);
         // (a)
         size_t sz = rx.size();
         if (sz > (size_t)cap - 1)
@@ -204,6 +214,23 @@ static void run_stream(Codec k, int cap, const Bytes &s, unsigned placement, Run
     (void)rx.line(); // terminator write at end of stream as well
     if (reg && !reg->intact(0, (size_t)cap))
         vf::fail(key(r, "a", "guard-bytes-modified").c_str(), "guard modified by cstr() at end of stream; %s", wit(r, s.size() ? s.size() - 1 : 0).c_str());
+}
+static void run_stream(Codec k, int cap, const Bytes &s, unsigned placement, Run &r)
+{
+    r.k = k;
+    r.cap = cap;
+    r.s = &s;
+    int src = k == LEGACY ? SRC_OWN : (int)((placement / 3) % NSRC); // where the constructor's context lives: gs_rx.h
+    if (vf::verbose())
+        printf("  codec=%s cap=%d placement=%u ctx-source=%s stream=%s\n", CODEC_NAME[k], cap, placement % 3, SRC_NAME[src],
+               vf::hex(s.data(), s.size(), 5000).c_str());
+    RxBuf b;
+    b.make(cap, placement);
+    Rx rx(k, src);
+    if (k != LEGACY)
+        g_src[src]++;
+    rx.init(b.p, cap);
+    feed(rx, b, r);
 }
 
 // ---------------------------------------------------------------- whole-run audit: clauses (c) and (d)
@@ -674,6 +701,84 @@ static void directed_run(uint64_t idx)
 }
 VF_SUITE(directed, directed_count, directed_run)
 
+// (8) buffer hand-over inside a stream: setbuf()/init()/setbuf_v1() to an equal, larger or smaller exact buffer at
+// every position of a frame (incl. between STUB and its code).  The entry points re-initialise the receiver, so the
+// shadow decoder restarts at the swap: the bytes after it are judged like a stream given to a fresh receiver with
+// the NEW capacity ((a),(b) after every byte, (c),(d) over the segment).  The old buffer is freed at the swap.
+static uint64_t handover_count() { return NCODEC * (vf::thorough() ? 1500 : 60); }
+static void handover_run(uint64_t idx)
+{
+    Codec k = (Codec)(idx % NCODEC);
+    const Alpha &a = ALPHA[k];
+    vf::Rng r(vf::seed(), 0xC05E, idx);
+    int cap0 = r.chance(1, 3) ? CAPS[1 + r.below(3)] : r.range(4, 28);
+    int small = r.range(2, cap0 - 1), large = cap0 + r.range(1, 9);
+    int minc = small;
+    Bytes f1 = ref_frame(a, random_payload(r, k, r.below((uint64_t)cap0 - 1)));
+    // the frame in flight fills the first buffer well, and starts with an escaped byte half of the time
+    Bytes p2 = random_payload(r, k, (size_t)cap0 - 2 - r.below(2));
+    if (!p2.empty() && r.chance(1, 2))
+        p2[0] = r.chance(1, 2) ? a.START : a.STUB;
+    Bytes f2 = ref_frame(a, p2);
+    Bytes tail;
+    for (int i = 0; i < 3; i++)
+        append(tail, ref_frame(a, random_payload(r, k, r.below((uint64_t)minc - 1))));
+    unsigned pl = (unsigned)r.next();
+    static Run r0, r1;
+    uint64_t n = 0;
+    for (size_t p = 0; p <= f2.size(); p++)
+        for (int variant = 0; variant < 3; variant++)
+        {
+            int cap1 = variant == 0 ? cap0 : variant == 1 ? large : small;
+            bool use_setbuf = (p + variant + idx) % 3 != 0; // 2/3 through setbuf / setbuf_v1, 1/3 through init / zero-fill+setbuf_v1
+            Bytes seg0 = f1, seg1(f2.begin() + p, f2.end());
+            seg0.insert(seg0.end(), f2.begin(), f2.begin() + p);
+            append(seg1, tail);
+            char c[64];
+            snprintf(c, sizeof c, "%s/handover", CODEC_NAME[k]);
+            vf::cls(c);
+            if (vf::verbose())
+                printf("  codec=%s cap0=%d seg0=%s | %s -> cap1=%d seg1=%s\n", CODEC_NAME[k], cap0, vf::hex(seg0.data(), seg0.size(), 200).c_str(),
+                       use_setbuf ? "setbuf" : "init", cap1, vf::hex(seg1.data(), seg1.size(), 300).c_str());
+            RxBuf b0, b1;
+            b0.make(cap0, pl + (unsigned)p);
+            Rx rx(k, k == LEGACY ? SRC_OWN : (int)((p + variant) % NSRC));
+            rx.init(b0.p, cap0);
+            r0.k = k;
+            r0.cap = cap0;
+            r0.s = &seg0;
+            feed(rx, b0, r0);
+            audit(r0);
+            b1.make(cap1, pl + (unsigned)p + 1 + (unsigned)variant);
+            if (use_setbuf)
+                rx.setbuf(b1.p, cap1);
+            else
+                rx.init(b1.p, cap1);
+            b0.release();
+            r1.k = k;
+            r1.cap = cap1;
+            r1.s = &seg1;
+            feed(rx, b1, r1);
+            audit(r1);
+            n++;
+            if (variant == 2)
+                VF_OK("hand-over to a smaller buffer inside a frame");
+            else if (variant == 1)
+                VF_OK("hand-over to a larger buffer inside a frame");
+            else
+                VF_OK("hand-over to an equally sized buffer inside a frame");
+            if (p >= 2 && p < f2.size() && f2[p - 1] == a.STUB)
+                VF_OK("hand-over between STUB and its code");
+        }
+    VF_OKN("buffer hand-over (setbuf/init/setbuf_v1) at one position of a frame, old buffer freed", n);
+    vf::count_case(vf::hash_bytes(f2.data(), f2.size(), vf::mix(k, cap0)), true);
+    if (vf::want_sample())
+        vf::sample("handover: codec=%s cap0=%d -> {%d,%d,%d} at every position of frame %s, followed by 3 frames", CODEC_NAME[k], cap0, cap0, large, small,
+                   vf::hex(f2.data(), f2.size(), 40).c_str());
+    flush_cov();
+}
+VF_SUITE(handover, handover_count, handover_run)
+
 // (6) receive buffers of 64 KiB and more: a frame that fits must be delivered, one that does not must overflow
 static const int BIGCAPS[] = {65535, 65536, 65537, 65600, 70000, 131072 + 5};
 static uint64_t big_count() { return NCODEC * (sizeof BIGCAPS / sizeof BIGCAPS[0]) * (vf::thorough() ? 4 : 1); }
@@ -790,6 +895,10 @@ extern "C" void vf_setup()
                           "custom-alphabet: clauses (a)-(d) over a caller-defined gstuff_context (extra dimension)", "custom-alphabet: (b) checked",
                           "custom-alphabet: (c) checked", "custom-alphabet: (d) after a non-empty prefix", "custom-alphabet: START == STOP variant",
                           "custom-alphabet: START != STOP variant", "custom-alphabet: 0xFF as a marker", "status:custom:NEWPACKAGE",
-                          "status:custom:OVERFLOW"})
+                          "status:custom:OVERFLOW", "buffer hand-over (setbuf/init/setbuf_v1) at one position of a frame, old buffer freed",
+                          "hand-over to a smaller buffer inside a frame", "hand-over to a larger buffer inside a frame",
+                          "hand-over to an equally sized buffer inside a frame", "hand-over between STUB and its code", "receiver context source:own",
+                          "receiver context source:temporary", "receiver context source:factory-local", "receiver context source:heap-freed",
+                          "receiver context source:reassigned"})
         vf::require(c);
 }
